@@ -217,10 +217,12 @@ func RunTxFlow(c *Ctx) {
 					}
 					f := newFlowRun(c, fmt.Sprintf("crash/b%d/op%d/k%d/n%d", bound, i, k, nested), bound)
 					f.start(-1)
+					nst := nested // the crash point inside the recovery is used once (assigning the loop variable here made
+					// the enumeration start over for ever whenever the sampling of the quick tier did not cut it short)
 					for j, o := range ops {
 						if !f.up() {
-							f.start(nested)
-							nested = -1
+							f.start(nst)
+							nst = -1
 							if !f.up() {
 								f.start(-1)
 							}
